@@ -70,6 +70,13 @@ func gen(t *rapid.T) Case {
 		OnCloseHook: rapid.IntRange(0, 3).Draw(t, "onCloseHook") == 0,
 	}
 
+	if c.State == "op-inflight" {
+		// an on-close function that runs an operation of its own while another operation is still
+		// in flight is two concurrent operations on one driver, which the library does not
+		// promise to support (driver state such as the cached privilege level is not locked)
+		c.OnCloseHook = false
+	}
+
 	if c.Driver == "netconf" {
 		// re-opening is exercised through the channel (generic and network drivers). A NETCONF
 		// driver is not meant to be opened twice on the pinned tree: after a 1.1 session it cannot
